@@ -175,7 +175,11 @@ def _run(t: str, s: int) -> Result:
     lines = {l["case"]: l for l in ra.lines}
 
     # ---- stage B: replay every safe behaviour into the real back ends ---------------------------------------------
-    faulty_kernels = {meta[c]["kernel"] for c, l in lines.items() if l["v"]["c05"] not in ("ok",)}
+    INCONCLUSIVE = ("value-range", "unsupported-node")
+    faulty_kernels = {meta[c]["kernel"] for c, l in lines.items() if l["v"]["c05"] not in ("ok",) + INCONCLUSIVE}
+    # kernels outside the model's value box (big literals): both back ends are still run, compared with each other
+    # bit for bit and with an exact Fraction evaluation (exprs.denote) instead of the machine
+    outside_kernels = {meta[c]["kernel"] for c, l in lines.items() if l["v"]["c05"] in INCONCLUSIVE}
     tasks = []
     for ki, (k, cap, group) in enumerate(kernel_list):
         if group == "broadcast-target" or ki in faulty_kernels:
@@ -189,7 +193,7 @@ def _run(t: str, s: int) -> Result:
             fu = exprs.first_use(k.asg)
             tensors = {nm: _spec_tensor(k.formats[nm], [m["dims"][i] for i in fu[nm]], packed[nm]) for nm in fu}
             inputs.append({"cid": cid, "tensors": tensors})
-        for backend in ["llvm"] + (["cffi"] if ki % P["c_fraction"] == 0 else []):
+        for backend in ["llvm"] + (["cffi"] if ki % P["c_fraction"] == 0 or ki in outside_kernels else []):
             tasks.append({"id": f"{ki}:{backend}", "op": "eval_batch", "text": k.text, "formats": k.formats,
                           "cap": cap, "backend": backend, "inputs": inputs})
     pool = Pool()
@@ -218,6 +222,16 @@ def _run(t: str, s: int) -> Result:
                 want_dims = [m["dims"][i] for i in k.asg["tidx"]]
                 if o["out"]["dims"] != want_dims:
                     v = "dimensions"
+                elif l["status"] in INCONCLUSIVE:
+                    from fractions import Fraction
+
+                    ct = {nm: {tuple(c_): Fraction(v_["n"], 1 << v_["e"]) for c_, v_ in seq} for nm, seq in l["content"].items()} \
+                        if isinstance(l["content"], dict) else {}
+                    want = exprs.denote(k.asg, m["dims"], ct)
+                    got = exprs.decode(o["out"]["levels"], o["out"]["vals"],
+                                       kernels.fmt_record(k.formats[k.asg["target"]]), want_dims)
+                    v = "ok" if all(Fraction(got.get(c_, 0.0)) == w for c_, w in want.items()) and \
+                        all(c_ in want for c_ in got) else "values-differ-from-exact-reference"
                 elif not same_levels(o["out"]["levels"], l["out"]["levels"]):
                     v = "structure-differs"
                 elif not same_vals(o["out"]["vals"], l["out"]["vals"]):
